@@ -12,6 +12,7 @@ EXPLANATION = ("C17 (narrow): header writes are dominated by the capacity test i
                "split) is value-level and not decided."
                " Also: header insert/append move and place bytes using the header length as it was before the call (R5).")
 EXPLANATION += ' Round 3: only the nni_chunk_* primitives write chunk fields (R6).'
+EXPLANATION += ' Round 5: a sum of two sizes is used only behind an overflow guard that is still valid (R8).'
 
 
 def rule_r1(ctx):
@@ -291,6 +292,116 @@ def rule_r7(ctx):
                      % (show(n), c.line, show(f.expand(lens[0].node["rhs"]))))
 
 
+# ---------------------------------------------------------------------------
+# R8: a sum of two sizes is compared / allocated only while its overflow guard still holds
+
+SIZE_MAX = 18446744073709551615
+
+
+def _size_operand(f, n):
+    """text of n if it is a local or a field of an unsigned size type (not a pointer, not a constant)"""
+    while n is not None and n.get("k") == "cast":
+        n = n["e"]
+    if n is None or const_of(n) is not None:
+        return None
+    t = None
+    if n.get("k") == "var":
+        t = (f.locals().get(n["n"]) or {}).get("t")
+    elif n.get("k") == "mem":
+        t = n.get("t")
+    if t is None or "*" in t or not any(x in t for x in ("size_t", "unsigned long", "uint64_t")):
+        return None
+    return show(n)
+
+
+def rule_r8(ctx):
+    r = ctx.rule("C17.R8", "T1", "a sum of two sizes decides nothing while it can wrap: in the chunk functions of message.c every `a + b` of "
+                 "two size values is reached only through the no-overflow edge of a guard `a > SIZE_MAX - b` (either "
+                 "orientation) that lies after the last assignment of a and b -- a guard taken before an operand is raised says "
+                 "nothing about the sum that is then compared with the capacity, and a request near SIZE_MAX is answered "
+                 "'fits' with a length the storage cannot hold", floor=4)
+    prog = ctx.prog
+    n = 0
+    for f in prog.fns_in("core/message.c"):
+        if f.cfg_failed or not f.name.startswith("nni_chunk_"):
+            continue
+        sums = []
+        for s_ in f.sites():
+            nd = s_.node
+            if nd.get("k") == "bin" and nd.get("op") == "+":
+                a, b = _size_operand(f, nd["lhs"]), _size_operand(f, nd["rhs"])
+                if a and b:
+                    sums.append((s_, a, b))
+        if not sums:
+            continue
+        # guards: raw branch conditions  X > (SIZE_MAX - Y)  and their mirrored / negated spellings
+        guards = {}        # frozenset({X, Y}) -> {block: no-overflow succ index}
+        for b in f.blocks.values():
+            if not b.term or len(b.succs) != 2:
+                continue
+            c = f.cond(b.id)
+            neg = 0
+            while c is not None and c.get("k") == "un" and c.get("op") == "!":
+                c, neg = c["e"], neg ^ 1
+            if c is None or c.get("k") != "bin" or c.get("op") not in (">", ">=", "<", "<="):
+                continue
+            l, rr, op = c["lhs"], c["rhs"], c["op"]
+
+            def diff(x):
+                while x is not None and x.get("k") == "cast":
+                    x = x["e"]
+                if x is not None and x.get("k") == "bin" and x.get("op") == "-" and const_of(x["lhs"]) == SIZE_MAX:
+                    return _size_operand(f, x["rhs"])
+                return None
+            if diff(rr) and _size_operand(f, l):
+                x, y = _size_operand(f, l), diff(rr)          # x OP MAX - y
+            elif diff(l) and _size_operand(f, rr):
+                x, y = _size_operand(f, rr), diff(l)          # MAX - y OP x
+                op = {">": "<", ">=": "<=", "<": ">", "<=": ">="}[op]
+            else:
+                continue
+            overflow_edge = 0 if op in (">", ">=") else 1      # edge on which x > MAX - y
+            guards.setdefault(frozenset((x, y)), {})[b.id] = (1 - overflow_edge) ^ neg
+        for s_, a, b in sums:
+            n += 1
+            g = guards.get(frozenset((a, b)))
+            if not g:
+                ctx.fail(r, f, "%s + %s is never tested for overflow" % (a, b), s_.line,
+                         "%s computes %s + %s (line %s) and no branch compares one of them with SIZE_MAX minus the other" % (f.name, a, b, s_.line))
+                continue
+            # starting points after which a guard is needed: function entry and every assignment of an operand
+            kills = []
+            for t in f.sites():
+                nd = t.node
+                tgt = None
+                if nd.get("k") == "asg":
+                    tgt = nd["lhs"]
+                elif nd.get("k") == "un" and nd.get("op") in ("++", "--"):
+                    tgt = nd["e"]
+                if tgt is not None and show(tgt) in (a, b):
+                    kills.append((t.b, t.i + 1, t.line))
+
+            def ok_edge(bb, k):
+                return not (bb in g and g[bb] == k)
+            # the sum is only reached through the guard's no-overflow edge: without those edges it is unreachable from the
+            # entry and from behind every assignment
+            bad = None
+            if (s_.b, s_.i) in f.reach((f.entry, 0), edge_ok=ok_edge):
+                bad = "from the function entry"
+            for kb, ki, kl in kills:
+                if (s_.b, s_.i) in f.reach((kb, ki), edge_ok=ok_edge):
+                    bad = "after %s was changed at line %s" % ("an operand", kl)
+            if bad:
+                ctx.fail(r, f, "%s + %s used with a stale overflow guard" % (a, b), s_.line,
+                         "%s reaches the sum %s + %s at line %s %s without passing the no-overflow edge of a guard on that "
+                         "pair: the sum can wrap, and what it is compared with (the capacity) or what is allocated from it is "
+                         "then wrong -- a size near SIZE_MAX is accepted with storage it does not fit" % (f.name, a, b, s_.line, bad))
+            else:
+                r.ob(f, "%s + %s (line %s) only behind its overflow guard" % (a, b, s_.line))
+    if n < 4:
+        raise AnalysisBroken("only %d size sums found in the chunk functions" % n)
+
+
 def run(ctx):
     ctx.guard(rule_r1)
     ctx.guard(rule_r2)
@@ -299,3 +410,4 @@ def run(ctx):
     ctx.guard(rule_r5)
     ctx.guard(rule_r6)
     ctx.guard(rule_r7)
+    ctx.guard(rule_r8)
